@@ -140,7 +140,20 @@ def check_seq(seq, ws_style, trailing, emptypos, gf_split, firstid=None):
             bad('sid', 'tree %d has sid %r, expected %d' % (k + 1, t.data.get('sid'), want_sid))
     if so or se:
         bad('not-quiet', 'quiet, but output %r %r' % (so, se))
-    both_rejected = rejected and status[0] == 'error' and isinstance(err, ValueError)
+    both_rejected = False
+    if rejected and status[0] == 'error' and isinstance(err, ValueError):
+        # The ValueError may be the end-of-file error rather than an error at the offending token.
+        # Close every open group: a reader that overlooked the offending token now yields a tree.
+        closed = text.rstrip('\n') + ')' * sum(1 for c in seq if c == '(') + '\n'
+        with open(path, 'w', encoding='utf-8', newline='') as f:
+            f.write(closed)
+        trees2, err2, _, _ = run_reader(treeinput.brackets, path, 'utf-8', **opts)
+        if isinstance(err2, ValueError) and len(trees2) == len(ref_trees):
+            both_rejected = True
+        else:
+            case = dict(case, closed_with=closed)
+            bad('ill-formed-accepted', 'the ill-formed group is decoded once the file continues: %r yields %d trees '
+                'and %r (the well-formed groups before it: %d)' % (closed, len(trees2), err2, len(ref_trees)))
     return out, both_rejected, (len(ref_trees), status if status == 'ok' else status[0])
 
 
@@ -213,7 +226,7 @@ def decorated(sh, salt, sid):
                           lambda p, s: edges[(sum(p) + salt) % len(edges)])
     toks = model.mk_tokens(n, words=[WORDS[(salt * 3 + i) % len(WORDS)] for i in range(n)],
                            pos=['P%d' % ((i + salt) % 3) for i in range(n)],
-                           lemma=['l%d' % i for i in range(n)], morph=['m%d.x' % i for i in range(n)],
+                           lemma=['l%d' % i for i in range(n)], morph=['3' if (i + salt) % 3 == 0 else 'm%d.x' % i for i in range(n)],
                            edge=[edges[(i + salt) % len(edges)] for i in range(n)])
     return model.MT(sid, toks, root)
 
@@ -437,7 +450,7 @@ def bracket_order(nd):
 
 # =================================================================== driver
 def plan(tier, seed):
-    L = 8 if tier == 'quick' else 11
+    L = 10 if tier == 'quick' else 12
     chunks = []
     for a in CLASSES:
         for b in CLASSES:
@@ -492,7 +505,7 @@ def run_chunk(chunk):
     res = Result()
     with quiet():
         if chunk['kind'] == 'auto':
-            tier = 'quick' if chunk['L'] <= 8 else 'thorough'
+            tier = 'quick' if chunk['L'] <= 10 else 'thorough'
             search(chunk['prefix'], chunk['L'], res, variants_for(tier))
             res.sample({'class_sequence_prefix': chunk['prefix'], 'max_length': chunk['L'],
                         'example_file': render(tuple(chunk['prefix']) + ('tok', 'ws', 'tok', ')'), 0, True)[1]})
